@@ -6,6 +6,7 @@ from .lib.witness import PRELUDE, run_witness
 SELECT = r'^bluetoe::server::(l2cap_output|notify|indicate|find_notification_data|find_notification_data_by_index)$|^bluetoe::details::find_notification_data_in_list::|^bluetoe::details::find_notification_by_uuid::|^bluetoe::details::impl::attribute_at::'
 UNITS = lambda u: u in ('w_inst_att',) or u.startswith('t_att_notification') or u.startswith('t_att_indication') or u.startswith('t_att_outgoing') or u.startswith('t_att_find_notification')
 FN = 'bluetoe::details::find_notification_data_in_list::'
+EXACT = ('order-witness',)   # verdicts computed from the meaning of the code (compiler / folding / symbolic terms): not gated by the golden structure
 META = {
     'level': 'index-space agreement: the three producers of notification_data (lookup by bound value, by CCCD index and by characteristic UUID) iterate lists of one order class - the priority-sorted list '
              'and the list derived from it - which is also the order of cccd_indices used by the CCCD attributes; compiler-evaluated witness for declarations with priorities: the i-th entry of the list the '
